@@ -39,7 +39,15 @@ func vhModelParse(c *Comp, src string) ast2.Ast {
 	return nil
 }
 
-func vhModelCmd(ir *Interp, src string) (string, base.CmdOpt) { return src, 0 }
+// vhCmdConsumes: the chunk is a ':command' or a package clause that Interp.Cmd handles completely
+var vhCmdConsumes bool
+
+func vhModelCmd(ir *Interp, src string) (string, base.CmdOpt) {
+	if vhCmdConsumes {
+		return "", 0
+	}
+	return src, 0
+}
 func vhModelRunExpr(ir *Interp, e *Expr) ([]xr.Value, []xr.Type) { return nil, nil }
 func vhModelPrint(g *base.Globals, values []xr.Value, types []xr.Type) {}
 
@@ -79,6 +87,26 @@ func VH_C27_replChunk() {
 		}
 	}
 	vhAssert(g.Line == line0+vhNL(vhChunkPrefix)+vhNL(vhChunkRest), "afterwards the counter has advanced by the newlines of the chunk")
+	vhReach("end")
+}
+
+// a chunk consumed by a REPL command or package clause is not parsed but its lines still count
+func VH_C27_replCommandChunk() {
+	ir := vhReplWorld()
+	g := &ir.Comp.Globals
+	line0 := vhInt("lines consumed before the chunk")
+	vhAssume(line0 >= 0 && line0 < 1<<40)
+	g.Line = line0
+	vhChunkPrefix = vhStrRange("comment prefix", 4, '\n', '/')
+	vhChunkRest = vhStrRange("command", 4, '\n', 'z')
+	vhChunkEOF = false
+	vhAssume(len(vhChunkRest) > 0 && vhChunkRest[0] > ' ')
+	vhCmdConsumes = true
+	defer func() { vhCmdConsumes = false }()
+	again := ir.ReadParseEvalPrint()
+	vhAssert(again, "the REPL continues")
+	vhAssert(vhParses == 0, "a chunk handled by a command is not parsed")
+	vhAssert(g.Line == line0+vhNL(vhChunkPrefix)+vhNL(vhChunkRest), "its lines are still counted")
 	vhReach("end")
 }
 
